@@ -20,6 +20,7 @@ RULE = (
     "model in {SparseDrugCombo, SparseDrugComboInteraction}, D 1..3, burn-in 0..2, 3..5 samples, 1..2 chains, n_chunks 1..4 for distances and scores, batch of 0..2 "
     "selected plates, scorer in {GaussianDBAL, Size, Random}; 1 in 5 cases through the CLIs on files. Non-trivial = twin differs in >=1 masked value and >=1 plate is scored. "
     "distinct = distinct case JSON."
+    ' Also: refusal of plates holding observed and masked rows (partial set_observed, mixed merge).'
 )
 ASSUMPTIONS = [
     "both runs execute under 'controlled randomness' (global numpy state seeded, unseeded default_rng() made a function of the seed) so that non-interference is decided independently of C18",
@@ -342,7 +343,7 @@ def check_case(case):
     # ---- refusals
     obs_ids = sorted(int(p_.plate_id) for p_ in screen_a.plates if bool(np.all(p_.observation_mask)))
     un_ids = sorted(int(p_.plate_id) for p_ in screen_a.plates if not bool(np.any(p_.observation_mask)))
-    for label, mutate in (("masked", None), ("masked_view_combine", "combine"), ("masked_view_concat", "concat"), ("masked_view_subset", "subset"), ("only_masked_rows", "unobserved"), ("only_masked_plate", "plate"), ("negative", -0.2), ("nan", float("nan"))):
+    for label, mutate in (("masked", None), ("masked_view_combine", "combine"), ("masked_view_concat", "concat"), ("masked_view_subset", "subset"), ("only_masked_rows", "unobserved"), ("only_masked_plate", "plate"), ("partly_revealed_plate_whole_screen", "partial:screen"), ("partly_revealed_plate", "partial:plate"), ("partly_revealed_plate_subset", "partial:subset"), ("merged_observed_and_masked_plate", "merged"), ("negative", -0.2), ("nan", float("nan"))):
         m2 = cls(experiment_space=ExperimentSpace.from_screen(screen_a), n_embedding_dimensions=case["D"])
         if mutate is None:
             data = screen_a  # still contains masked rows
@@ -350,6 +351,39 @@ def check_case(case):
             data = screen_a.subset_unobserved()  # nothing but masked rows
         elif mutate == "plate":
             data = screen_a.get_plate(un_ids[case["seed"] % len(un_ids)])  # one masked plate
+        elif isinstance(mutate, str) and (mutate.startswith("partial:") or mutate == "merged"):
+            # a plate that holds observed AND masked rows - reachable only through a history on the screen object: results for
+            # part of a plate arrive (set_observed), or an observed plate is merged with a masked one
+            fresh = S.build_screen(sc, treatment_mapping=tm, sample_mapping=sm)
+            if mutate == "merged":
+                po, pu = fresh.get_plate(obs_ids[case["seed"] % len(obs_ids)]), fresh.get_plate(un_ids[case["seed"] % len(un_ids)])
+                try:
+                    data = po.merge(pu) if case["seed"] % 2 else pu.merge(po)
+                except ValueError:
+                    continue  # (merging plates of different status refused: no such plate)
+                if data is None:
+                    data = fresh
+            else:
+                big = [u for u in un_ids if int(np.sum(np.asarray(fresh.get_plate(u).selection_vector))) >= 2]
+                if not big:
+                    continue
+                pu = fresh.get_plate(big[case["seed"] % len(big)])
+                idx = np.flatnonzero(np.asarray(pu.selection_vector))
+                part = np.zeros(fresh.size, dtype=bool)
+                part[idx[: max(1, len(idx) // 2)] if case["seed"] % 2 else idx[len(idx) // 2 :]] = True
+                try:
+                    fresh.set_observed(part, np.full(int(part.sum()), 0.5))
+                except ValueError:
+                    continue  # (revealing part of a plate refused: no such screen)
+                if mutate == "partial:screen":
+                    data = fresh
+                elif mutate == "partial:plate":
+                    data = fresh.subset(np.asarray(pu.selection_vector))
+                else:
+                    po = fresh.get_plate(obs_ids[case["seed"] % len(obs_ids)])
+                    data = fresh.subset(np.asarray(po.selection_vector) | np.asarray(pu.selection_vector))
+            if bool(np.all(np.asarray(data.observation_mask))):
+                continue
         elif mutate in ("combine", "concat", "subset"):
             # views that hold an observed plate AND a masked plate (in either order of construction)
             from batchie.data import ScreenSubset
